@@ -37,16 +37,43 @@ def inherent(fx, which, ty, name):
     return c[0]
 
 
+class _Value(tuple):
+    """the value of a printer body; knows the writes it was evaluated with (for rules that were handed the value only)"""
+    out = ()
+
+
 def evaluate(fx, body):
     ev = sym.Eval(fx, inline_depth=0)
     v = ev.function(body)
+    if isinstance(v, tuple):
+        v = _Value(v)
+        v.out = list(ev.out)
     return Printer(body, v, list(ev.out))
+
+
+def arm_writes(out):
+    """{pattern of the receiver's arm: [(further conditions, loops, write)]} from the recorded writes: what each variant prints, whether the
+    arms are a `match` value, early `return write!(..)`s or statements"""
+    tab = {}
+    for conds, loops, item in out:
+        if item[0] != "write":
+            continue
+        arms = [i for i, c in enumerate(conds) if len(c) == 2 and c[1] is True and isinstance(c[0], tuple) and c[0][:1] == ("arm",)]
+        if not arms:
+            continue
+        i = arms[0]
+        rest = tuple((c[0][1], c[1]) if (len(c) == 2 and isinstance(c[0], tuple) and c[0][:1] == ("survived",)) else c for c in conds[:i] + conds[i + 1:])
+        tab.setdefault(conds[i][0][2], []).append((rest, loops, item))
+    return tab
 
 
 def token_table(v):
     """match self.0 { Variant => write!(f, "tok") | "tok" } -> {pattern: template}; None if not of that shape."""
     if v[0] != "match":
-        return None
+        aw = arm_writes(getattr(v, "out", ()))
+        if not aw:
+            return None
+        return {pat: (ws[0][2][1] if len(ws) == 1 and not ws[0][0] and not ws[0][1] else None) for pat, ws in aw.items()}
     out = {}
     for a in v[2]:
         val = a[-1]
@@ -235,7 +262,8 @@ def flat(fx, body, inline=(), setup=None):
             else:
                 alts = [(cs, ps + [part]) for cs, ps in alts]
         for cs, ps in alts:
-            allc = tuple((nrm(c_[0], mapping), c_[1]) for c_ in tuple(conds) + cs if len(c_) == 2)
+            unsurvived = lambda c_: (c_[0][1], c_[1]) if (isinstance(c_[0], tuple) and c_[0][:1] == ("survived",) and len(c_[0]) == 2) else c_
+            allc = tuple((nrm(unsurvived(c_)[0], mapping), c_[1]) for c_ in tuple(conds) + cs if len(c_) == 2)
             entries.append((allc, tuple(leaves.norm(n) for n in nest), [p if isinstance(p, str) else ("hole", p[1], nrm(p[2], mapping)) for p in ps]))
     t = Text(ev, entries)
     # sibling arms, keyed by the normalised scrutinee as the conditions are
